@@ -344,6 +344,40 @@ def check_partition(ctx, prog):
                                                                                                       'no worker runs, indices are never visited' if bad and bad[0][2] < 1 else 'more workers than indices/threads'))
     except bytesets.Undecidable as ex:
         ctx.undecided('C13.partition', f['pq'], role, fwhere(f, nvar['l']), 'worker count expression not evaluable: %s' % ex)
+    # early exits: a return before the workers are spawned is only taken when the indices it leaves unvisited do not exist
+    # (guards of each early return evaluated on the (i0, length, threads) grid; direct calls f(x) on that path are counted)
+    import bounded
+    G = q.Guarded(f)
+    order = dict((id(x), i) for i, x in enumerate(G.order))
+    runs = [e for e in fn_exprs(f) if e.get('k') == 'call' and e.get('pq') == 'asl::Thread::run']
+    first_run = min([order.get(id(e), 10 ** 9) for e in runs] or [10 ** 9])
+    direct = [e for e in fn_exprs(f) if e.get('k') == 'call' and e.get('op') == '()' and strip(e.get('obj') or {}).get('id') == fn_['id']]
+    early = []
+    for s_ in ir.walk_stmts(f['body']):
+        if s_.get('k') == 'return':
+            # position of a return statement: after every expression of the statements before it
+            pos = max([order.get(id(x), -1) for x in G.order if x.get('l', 0) < s_.get('l', 0)] or [-1])
+            if pos < first_run:
+                early.append((s_, pos))
+    role = 'parallel_for:no index is left unvisited by an early return'
+    badr = None
+    try:
+        for s_, pos in early:
+            for req in range(1, 6):
+                for a in (-2, 0, 3):
+                    for ln in range(0, 7):
+                        ev = bounded.Bound(prog, f, {i0['id']: a, i1['id']: a + ln, nth['id']: req}, {})
+                        ctx.evaluations += 1
+                        if not bounded.admitted(ev, G.stmt_guards.get(id(s_), ()), G):
+                            continue
+                        calls = [e for e in direct if order.get(id(e), 10 ** 9) <= pos + 50 and e.get('l', 0) <= s_.get('l', 0) and bounded.admitted(ev, G.of(e), G)]
+                        if ln > len(calls) and badr is None:
+                            badr = (s_.get('l'), a, a + ln, req, len(calls))
+        if early:
+            ctx.check(badr is None, 'C13.partition', f['pq'], role, fwhere(f, badr[0] if badr else early[0][0].get('l')), '%d early return(s): each only when every index was visited' % len(early),
+                      'parallel_for(%s, %s, f, %s) returns at line %s after %s direct call(s) of f: the remaining indices of the range are never visited' % ((badr[1], badr[2], badr[3], badr[0], badr[4]) if badr else (0, 0, 0, 0, 0)))
+    except bytesets.Undecidable as ex:
+        ctx.undecided('C13.partition', f['pq'], role, fwhere(f), 'guards of an early return not evaluable: %s' % ex)
     # spawn loop and context initialiser
     loops = [s_ for s_ in ir.walk_stmts(f['body']) if s_.get('k') in ('for', 'while') and any(e.get('k') == 'call' and e.get('pq') == 'asl::Thread::run' for e in ir.stmt_exprs(s_['body']))]
     if len(loops) != 1:
